@@ -21,6 +21,7 @@ ASSUMPTIONS = ["vf/ref/tx_ref.py is the wire format (validated on the BIP143 exa
 OBLIGATIONS = {
     "concurrent_calls": "interleavings of two concurrent calls (single-case checks in two threads, cold and after warm-up calls)",
     "huge_item": "a script / witness item just beyond a Bitcoin sanity limit (521 B .. 2^25+1 B) round-tripped",
+    "long_history": "operations executed in one long history (>= 1000 distinct operations, forward / forward / reverse)",
     "history_sequences": "operation sequences (non-initial process states) explored",
     "empty_witness_mixed": "a segwit tx with an empty stack for one input and a non-empty one for another",
     "witness_item_ge_253": "a witness item of >= 253 bytes", "script_ge_253": "a script of >= 253 bytes",
@@ -204,6 +205,8 @@ def jobs(tier, seed):
         js.append({"name": f"huge/{where}", "part": "huge", "where": where, "weight": 12})
     from vf.runner import seq_jobs
     js += seq_jobs(3, weight=3)
+    from vf.runner import long_jobs
+    js += long_jobs()
     from vf.runner import concur_jobs
     js += concur_jobs(len(CONCUR_SCEN) - (1 if tier == "quick" else 0))
     return js
@@ -215,6 +218,9 @@ def run_job(job):
         ops = seq_ops(dict(job, shard=[0, 1]))
         scens = [{"threads": [ops[i] for i in sc[0]], "warm": [ops[i] for i in sc[1]], "post": [ops[i] for i in (sc[2] if len(sc) > 2 else ())]} for sc in CONCUR_SCEN]
         return run_concur_job(job, scens, run_case, PROPERTY, CONCUR_FILES)
+    if job["part"] == "longhist":
+        from vf.runner import run_long_job, default_long_ops
+        return run_long_job(job, default_long_ops(seq_ops, job), run_case)
     if job["part"] == "seq":
         from vf.runner import run_seq_job
         return run_seq_job(job, seq_ops(job), run_case, depth=3 if job["tier"] == "quick" else 4)
